@@ -9,5 +9,7 @@
 
 pub mod control;
 pub mod hash_map;
+pub mod hash_set;
 
 pub use hash_map::HashMap;
+pub use hash_set::HashSet;
